@@ -128,7 +128,15 @@ def main():
         print(f"UNDECIDED property={prop}: the verifier could not be run to a verdict on the current tree:")
         for m in undecided_msgs[:20]:
             print("  " + m)
-        write_evidence(prop, tier, seed, spec, results, kani_results, obligations, discharged, samples, [], t0, note="undecided: " + "; ".join(undecided_msgs[:3]), units=units)
+        # The verifier has no verdict. Before giving up, run the property's witness programs on the real library:
+        # a witness whose property-level oracle fails is a demonstrated violation (bounded stand-in, labelled as such).
+        import replay
+        hit = replay.witness_sweep(prop, units, registry)
+        write_evidence(prop, tier, seed, spec, results, kani_results, obligations, discharged, samples, [hit] if hit else [], t0,
+                       note="undecided: " + "; ".join(undecided_msgs[:3]) + ("; a witness program failed on the real library (bounded stand-in)" if hit else ""), units=units)
+        if hit:
+            print(f"VIOLATION property={prop} replay={hit}")
+            return 1
         return 2
 
     # ---- confirm failures under another seed and 4x rlimit (flaky proof => undecided, not a defect)
